@@ -495,3 +495,27 @@ Fixpoint tree_perms (pol : option policy) (ctx : dctx) (t : rtree) : list dperm 
       let '(ctx', p) := node_perm ctx cd msg_ecs cs res_cd raw in
       p :: flat_map (tree_perms pol ctx') ch
   end.
+
+(* ------------------------------------------------------------------ the byte ladder of a wire-born request *)
+(* Cache.ServeDNS runs Cache.serveWire first when the request is still undecoded.  Its entry gate
+   `!req.RD() || req.HasECS()` declines — whatever the [ecs] policy is, also with none — and so does
+   an unknown type / class; past the gate an exact hit is served from bytes, otherwise
+   serveCompositeFromWire walks: the RFC 8020 cut (unless CD), then RFC 9520 failure state.  The
+   RFC 8198 proof index is never consulted on bytes and nothing is admitted to the shared denial
+   state from bytes (admission happens in the cache's ResponseWriter, i.e. in the decoded body).
+   [has_ecs] is Request.HasECS: a subnet option in the query's OPT (WireReq.v / Proofs_wirereq.v). *)
+Definition wire_ladder_perm (rd has_ecs cd : bool) : dperm :=
+  let admitted := rd && negb has_ecs in
+  mk_dperm (admitted && negb cd) false false.
+
+Definition dperm_or (a b : dperm) : dperm :=
+  mk_dperm (dp_cut a || dp_cut b) (dp_proof a || dp_proof b) (dp_create a || dp_create b).
+
+(* a wire-born root: what the byte ladder may do, or — when it declines — the ordinary body of the
+   same call; the sub-queries below it are message-born *)
+Definition tree_perms_wire (pol : option policy) (rd : bool) (t : rtree) : list dperm :=
+  match t, tree_perms pol (mk_dctx false false) t with
+  | RNode cd _ opts _ _, p :: rest =>
+      dperm_or (wire_ladder_perm rd (match opts with Some l => has_ecs l | None => false end) cd) p :: rest
+  | _, [] => []
+  end.
